@@ -54,7 +54,12 @@ CONSTANTS Comp,      \* which component the behaviours exercise
           Depth,     \* calls per behaviour
           MaxCons,   \* at most this many objects are constructed by a pool
           VKinds,    \* kinds of value-typed pools explored by Comp = "vpool"
-          AsIs       \* divergences modelled the way the code behaves (see above)
+          AsIs,      \* divergences modelled the way the code behaves (see above)
+          Prefer     \* generation heuristics only (which allowed branch a behaviour CONTINUES with; the sets of
+                     \* allowed outcomes never depend on it): "pool" - a single goroutine without garbage collection
+                     \* finds in a sync.Pool what it put there, so take a pooled value when one is believed to be
+                     \* there and construct only otherwise; "putback" / "drop" - what Map.Get was observed to do
+                     \* with the default it fetched for a key that is present (AO-3, probed by `vh-adt probe`)
 
 V0 == V \cup {0}
 B(b) == IF b THEN "true" ELSE "false"
@@ -163,7 +168,7 @@ OnceStep ==
 Idx == 1..MaxCons
 Oid(i) == 100 + i
 NoObj == [by |-> "-", cl |-> 0, hk |-> "-"]
-PoolZero == [ctor |-> "zero", hook |-> "id", locked |-> FALSE, may |-> {}, inner |-> {}, ncons |-> 0]
+PoolZero == [ctor |-> "zero", hook |-> "id", locked |-> FALSE, may |-> {}, inner |-> {}, sure |-> {}, ncons |-> 0]
 Cl(o, id) == IF id > 100 THEN o[id - 100].cl ELSE 0
 Desc(o, id) == IF id > 100 THEN [id |-> id, cl |-> o[id - 100].cl, by |-> o[id - 100].by, hk |-> o[id - 100].hk]
                ELSE [id |-> id, cl |-> 0, by |-> "-", hk |-> "-"]
@@ -171,23 +176,38 @@ Desc(o, id) == IF id > 100 THEN [id |-> id, cl |-> o[id - 100].cl, by |-> o[id -
 \* the cleanup hook runs on id: the default hook is the identity; the harness hooks h1/h2 count and sign
 Hooked(o, id, h) == IF id > 100 /\ h \in {"h1", "h2"} THEN [o EXCEPT ![id - 100].cl = @ + 1, ![id - 100].hk = h] ELSE o
 
-\* Pool.Put(id): "returns an object in the pool, calling the cleanuphook"
-PutOb(p, o, id) == <<[p EXCEPT !.may = @ \cup {id}], Hooked(o, id, p.hook)>>
+\* Calls of the functions the client installed are observable: the harness constructors c1/c2 and hooks h1/h2 log
+\* "new:<id>" / "hook:<id>"; the library's own default constructor and identity hook cannot.
+HookEv(p, id) == IF p.hook \in {"h1", "h2"} THEN <<"hook:" \o S(id)>> ELSE <<>>
 
-\* What Pool.Get() may produce - sync.Pool: any value Put before, or a new one from the constructor.  A value whose
-\* finalizer is armed and that the client dropped may have been Put by the garbage collector at any time.
-\* Each candidate is a record: id, the pool / objects / fin / drp afterwards, and `via` (where it came from).
-Take(id, p, o, f, d, via) == [id |-> id, p |-> p, o |-> o, f |-> f, d |-> d, via |-> via]
-Takes(p, o, f, d) ==
-    {Take(id, [p EXCEPT !.may = @ \ {id}], o, f, d, "pool") : id \in p.may}
-    \cup {Take(id, [p EXCEPT !.inner = @ \ {id}], o, f, d, "inner") : id \in p.inner}
-    \cup {Take(id, p, Hooked(o, id, p.hook), f \ {id}, d \ {id}, "gc") : id \in f \cap d}
-    \cup (IF p.ctor = "zero" THEN {Take(0, p, o, f, d, "new")}
+\* Pool.Put(id): "returns an object in the pool, calling the cleanuphook"
+PutOb(p, o, id) == <<[p EXCEPT !.may = @ \cup {id}, !.sure = @ \cup {id}], Hooked(o, id, p.hook)>>
+
+\* What Pool.Get() may produce - sync.Pool: any value Put before, or a new one from the constructor.  `may` is an
+\* over-approximation of the pool's content (sync.Pool may drop anything at any time); `sure` is what the pool is
+\* believed to hold really (used only to choose the branch a behaviour continues with, see Prefer).  The garbage collector runs
+\* only in the explicit gc steps (the harness switches automatic collection off).
+\* Each candidate is a record: id, the pool / objects afterwards, where it came from, the observable calls.
+\* `may` is a set, the pool a multiset: the zero value can be Put any number of times, and once the divergence
+\* "make-value" has put a value into the pool that the client still holds, later Puts add further references to
+\* it - such ids stay in `may` when taken (over-approximation).
+Sticky(id) == id = 0 \/ (Comp = "vpool" /\ "make-value" \in AsIs)
+Take(id, p, o, via, ev) == [id |-> id, p |-> p, o |-> o, via |-> via, ev |-> ev]
+Takes(p, o) ==
+    {Take(id, [p EXCEPT !.may = IF Sticky(id) THEN @ ELSE @ \ {id}, !.sure = @ \ {id}], o, "pool", <<>>) : id \in p.may}
+    \cup {Take(id, [p EXCEPT !.inner = IF Sticky(id) THEN @ ELSE @ \ {id}, !.sure = @ \ {id}], o, "inner", <<>>) : id \in p.inner}
+    \cup (IF p.ctor = "zero" THEN {Take(0, p, o, "new", <<>>)}
           ELSE IF p.ncons < MaxCons
           THEN {Take(Oid(p.ncons + 1), [p EXCEPT !.ncons = @ + 1],
-                     [o EXCEPT ![p.ncons + 1] = [by |-> p.ctor, cl |-> 0, hk |-> "-"]], f, d, "new")}
+                     [o EXCEPT ![p.ncons + 1] = [by |-> p.ctor, cl |-> 0, hk |-> "-"]], "new",
+                     IF p.ctor \in {"c1", "c2"} THEN <<"new:" \o S(Oid(p.ncons + 1))>> ELSE <<>>)}
           ELSE {})
 AllowOf(ts) == {Desc(t.o, t.id) : t \in ts}
+\* the candidates a behaviour continues with
+Picks(p, o) == IF "pool" \notin Prefer THEN Takes(p, o)
+               ELSE IF p.sure # {} THEN {t \in Takes(p, o) : t.via # "new" /\ t.id \in p.sure}
+               ELSE {t \in Takes(p, o) : t.via = "new"}
+BackChoices == IF "putback" \in Prefer THEN {TRUE} ELSE IF "drop" \in Prefer THEN {FALSE} ELSE BOOLEAN
 
 (* --------------------------------------------------------------------- Map *)
 Dom == DOMAIN mp
@@ -220,37 +240,53 @@ MapStep ==
     \/ \E k \in K, v \in V :
           /\ Has("ensuredefault") /\ UNCHANGED <<pl, ob, fin, drp>>
           /\ mp' = IF k \in Dom THEN mp ELSE MapPut(mp, k, v)
-          /\ RecM([op |-> "ensuredefault", k |-> k, v |-> v, ran |-> 1], S(mp'[k]))
+          /\ RecM([op |-> "ensuredefault", k |-> k, v |-> v, calls |-> 1], S(mp'[k]))
     \* Get: "If the key is not present in the map a default value is created and added to the map."  The default comes
-    \* from the pool Default.  When the key is present the default that was fetched is not needed; the documentation
-    \* does not say what happens to it: the spec lets it re-enter the pool (dropping it is always allowed, AO-3).
-    \/ \E k \in K : \E t \in Takes(pl, ob, fin, drp) :
-          /\ Has("get")
-          /\ IF k \in Dom
-               THEN /\ mp' = mp
-                    /\ LET r == PutOb(t.p, t.o, t.id) IN pl' = r[1] /\ ob' = r[2]
-               ELSE /\ mp' = MapPut(mp, k, t.id)
-                    /\ IF "mapget-put" \in AsIs
-                         THEN LET r == PutOb(t.p, t.o, t.id) IN pl' = r[1] /\ ob' = r[2]
-                         ELSE pl' = t.p /\ ob' = t.o
-          /\ fin' = t.f /\ drp' = t.d
-          /\ RecM([op |-> "get", k |-> k, present |-> B(k \in Dom),
+    \* from the pool Default (fetched before the lookup).  When the key is present the fetched default is not needed;
+    \* the documentation does not say what happens to it: it may re-enter the pool (the hook runs) or be dropped (AO-3,
+    \* both branches are generated; `may` is then left as it is, because which pooled value was dropped is not visible).
+    \/ \E k \in K : \E t \in Picks(pl, ob), back \in BOOLEAN :
+          /\ Has("get") /\ UNCHANGED <<fin, drp>>
+          /\ IF k \in Dom THEN back \in BackChoices ELSE back = ("mapget-put" \in AsIs)
+          /\ mp' = IF k \in Dom THEN mp ELSE MapPut(mp, k, t.id)
+          /\ IF back THEN LET r == PutOb(t.p, t.o, t.id) IN pl' = r[1] /\ ob' = r[2]
+             ELSE IF k \in Dom
+                    \* dropped: `may` stays as it was (which pooled value went is not visible; when no logging hook is
+                    \* installed not even whether it was dropped: `may` covers both)
+                    THEN pl' = [pl EXCEPT !.ncons = t.p.ncons, !.sure = t.p.sure,
+                                          !.may = IF HookEv(pl, t.id) = <<>> THEN @ \cup {t.id} ELSE @] /\ ob' = t.o
+             ELSE pl' = t.p /\ ob' = t.o
+          /\ LET Ev(x, bk) == x.ev \o (IF bk THEN HookEv(pl, x.id) ELSE <<>>) IN
+             RecM([op |-> "get", k |-> k, present |-> B(k \in Dom),
+                   ev |-> Ev(t, back),
+                   evs |-> {Ev(x, bk) : x \in Takes(pl, ob), bk \in IF k \in Dom THEN BOOLEAN ELSE {"mapget-put" \in AsIs}},
                    allow |-> IF k \in Dom THEN {Desc(ob, mp[k])}
-                             ELSE {Desc(IF "mapget-put" \in AsIs THEN Hooked(x.o, x.id, x.p.hook) ELSE x.o, x.id)
-                                     : x \in Takes(pl, ob, fin, drp)},
+                             ELSE {Desc(IF "mapget-put" \in AsIs THEN Hooked(x.o, x.id, pl.hook) ELSE x.o, x.id)
+                                     : x \in Takes(pl, ob)},
                    pick |-> Desc(ob', mp'[k])], S(mp'[k]))
     \* Ensure: "adds a key to the map if it does not already exist, using the default value.  The default value, is
     \* taken from the pool" - through Default.Make, i.e. with a finalizer armed; an unused one is garbage at once.
-    \/ \E k \in K : \E t \in Takes(pl, ob, fin, drp) :
-          /\ Has("ensure")
+    \/ \E k \in K : \E t \in Picks(pl, ob) :
+          /\ Has("ensure") /\ UNCHANGED drp
           /\ ("ensure-nil" \in AsIs => t.id # 0)             \* as is: Make() of a nil pointer ends the process
           /\ pl' = t.p /\ ob' = t.o
           /\ mp' = IF k \in Dom THEN mp ELSE MapPut(mp, k, t.id)
-          /\ fin' = IF t.id > 100 THEN t.f \cup {t.id} ELSE t.f
-          /\ drp' = IF k \in Dom /\ t.id > 100 THEN t.d \cup {t.id} ELSE t.d
-          /\ RecM([op |-> "ensure", k |-> k, present |-> B(k \in Dom),
-                   allow |-> IF k \in Dom THEN {Desc(ob, mp[k])} ELSE AllowOf(Takes(pl, ob, fin, drp)),
+          /\ fin' = IF t.id > 100 THEN fin \cup {t.id} ELSE fin
+          \* amb: which pooled object Make() armed is not visible when the key is present; with two or more candidates
+          \* the replay of this behaviour stops after this step (a later gc would need to know)
+          /\ RecM([op |-> "ensure", k |-> k, present |-> B(k \in Dom), crash |-> "yes",
+                   amb |-> B(k \in Dom /\ Cardinality({x \in Takes(pl, ob) : x.via # "new"}) >= 2),
+                   ev |-> t.ev, evs |-> {x.ev : x \in Takes(pl, ob)},
+                   allow |-> IF k \in Dom THEN {Desc(ob, mp[k])} ELSE AllowOf(Takes(pl, ob)),
                    pick |-> Desc(ob', mp'[k])], "-")
+    \* a complete garbage collection, finalizers included: pool objects that carry a finalizer (they were handed out by
+    \* Ensure -> Make) and that the map no longer references are Put: the hook runs once on each
+    \/ /\ Has("gc") /\ UNCHANGED <<mp, drp>>
+       /\ LET back == {id \in fin : id \notin LiveInMap} IN
+          /\ pl' = [pl EXCEPT !.may = @ \cup back, !.sure = back]      \* two collections empty a sync.Pool
+          /\ ob' = [i \in Idx |-> IF Oid(i) \in back THEN Hooked(ob, Oid(i), pl.hook)[i] ELSE ob[i]]
+          /\ fin' = fin \ back
+          /\ RecM([op |-> "gc", evset |-> UNION {{HookEv(pl, id)[j] : j \in 1..Len(HookEv(pl, id))} : id \in back}], "-")
     \/ Has("len") /\ UNCHANGED <<mp, pl, ob, fin, drp>> /\ RecM([op |-> "len"], S(Cardinality(Dom)))
     \* Range: "The function is called once on every key in the map"; stopping: "When the range function returns false
     \* the iteration stops".  Keys / Values / Iterator drained completely: the same pairs, each once.
@@ -290,20 +326,21 @@ PoolStep ==
     \* Get: "returns an object from the pool or constructs a default object according to the constructor"
     \* Make: the same, "and attaches a finalizer that returns the item to the pool when the object would be garbage
     \* collected"; the constructor "should" be set first (Make of a nil pointer ends the process): not exercised
-    \/ \E op \in {"get", "make"} : \E t \in Takes(pl, ob, fin, drp) :
-          /\ Has(op)
+    \/ \E op \in {"get", "make"} : \E t \in Picks(pl, ob) :
+          /\ Has(op) /\ UNCHANGED drp
           /\ op = "make" => (pl.ctor # "zero" /\ 0 \notin pl.may)
-          /\ pl' = t.p /\ ob' = t.o /\ drp' = t.d
+          /\ pl' = t.p /\ ob' = t.o
           /\ held' = IF t.id = 0 THEN held ELSE held \cup {t.id}
-          /\ fin' = IF op = "make" THEN t.f \cup {t.id} ELSE t.f
-          /\ RecP([op |-> op, allow |-> AllowOf(Takes(pl, ob, fin, drp)), pick |-> Desc(ob', t.id)], S(t.id))
+          /\ fin' = IF op = "make" THEN fin \cup {t.id} ELSE fin
+          /\ RecP([op |-> op, ev |-> t.ev, evs |-> {x.ev : x \in Takes(pl, ob)},
+                   allow |-> AllowOf(Takes(pl, ob)), pick |-> Desc(ob', t.id)], S(t.id))
     \* Put of a value the client holds and that carries no finalizer ("objects retrieved with Make should not be
     \* passed manually to Put()"): the hook runs now, exactly once, and the value may be handed out again
     \/ \E x \in held \ fin :
           /\ Has("put")
           /\ LET r == PutOb(pl, ob, x) IN pl' = r[1] /\ ob' = r[2]
           /\ held' = held \ {x} /\ UNCHANGED <<fin, drp>>
-          /\ RecP([op |-> "put", x |-> x, after |-> Desc(ob', x)], "-")
+          /\ RecP([op |-> "put", x |-> x, ev |-> HookEv(pl, x), evs |-> {HookEv(pl, x)}, after |-> Desc(ob', x)], "-")
     \* the client forgets a value it got
     \/ \E x \in held :
           /\ Has("drop") /\ held' = held \ {x} /\ drp' = drp \cup {x} /\ UNCHANGED <<pl, ob, fin>>
@@ -311,10 +348,10 @@ PoolStep ==
     \* a complete garbage collection, finalizers included: dropped values with a finalizer are Put
     \/ /\ Has("gc") /\ held' = held
        /\ LET back == fin \cap drp IN
-          /\ pl' = [pl EXCEPT !.may = @ \cup back]
+          /\ pl' = [pl EXCEPT !.may = @ \cup back, !.sure = back]
           /\ ob' = [i \in Idx |-> IF Oid(i) \in back THEN Hooked(ob, Oid(i), pl.hook)[i] ELSE ob[i]]
           /\ fin' = fin \ back /\ drp' = {}
-       /\ RecP([op |-> "gc"], "-")
+          /\ RecP([op |-> "gc", evset |-> UNION {{HookEv(pl, id)[j] : j \in 1..Len(HookEv(pl, id))} : id \in back}], "-")
 
 (* ------------------------------------------------ pools of value-typed items *)
 \* Objects are the backing arrays.  kind "slice": a Pool[dt.Slice[byte]] whose items are taken with Make (finalizer)
@@ -324,19 +361,19 @@ PoolStep ==
 \* returns has length 0 and at least the minimum capacity.
 VStep ==
     \* take a value: slice/get, slice/make, bytesbuf/get (a new buffer is built on inner.Make()), bufpool/get
-    \/ \E op \in {"get", "make"} : \E t \in Takes(pl, ob, fin, drp) :
-          /\ Has(op) /\ (op = "make" => vk = "slice")
+    \/ \E op \in {"get", "make"} : \E t \in Picks(pl, ob) :
+          /\ Has(op) /\ (op = "make" => vk = "slice") /\ UNCHANGED drp
           /\ ("make-value" \notin AsIs => t.id \notin held)
-          /\ pl' = t.p /\ ob' = t.o /\ drp' = t.d
+          /\ pl' = t.p /\ ob' = t.o
           /\ held' = IF t.id = 0 THEN held ELSE held \cup {t.id}
-          /\ fin' = IF t.id # 0 /\ (op = "make" \/ (vk = "bytesbuf" /\ t.via # "pool")) THEN t.f \cup {t.id} ELSE t.f
+          /\ fin' = IF t.id # 0 /\ (op = "make" \/ (vk = "bytesbuf" /\ t.via # "pool")) THEN fin \cup {t.id} ELSE fin
           /\ RecP([op |-> op, kind |-> vk,
-                   allow |-> AllowOf({x \in Takes(pl, ob, fin, drp) : "make-value" \in AsIs \/ x.id \notin held}),
+                   allow |-> AllowOf({x \in Takes(pl, ob) : "make-value" \in AsIs \/ x.id \notin held}),
                    pick |-> Desc(ob', t.id), dup |-> B(t.id \in held)], S(t.id))
     \/ \E x \in held, g \in {"same", "over"} :
           /\ Has("put") /\ (g = "over" => vk = "bufpool") /\ (vk = "slice" => x \notin fin)
-          /\ pl' = [pl EXCEPT !.may = IF g = "same" THEN @ \cup {x}
-                                      ELSE IF "buf-nil" \in AsIs THEN @ \cup {0} ELSE @]
+          /\ LET in == IF g = "same" THEN {x} ELSE IF "buf-nil" \in AsIs THEN {0} ELSE {} IN
+             pl' = [pl EXCEPT !.may = @ \cup in, !.sure = @ \cup in]
           /\ held' = held \ {x} /\ UNCHANGED <<ob, fin, drp>>
           /\ RecP([op |-> "put", kind |-> vk, x |-> x, grow |-> g], "-")
     \/ \E x \in held :
@@ -346,7 +383,8 @@ VStep ==
     \* the client dropped it.  As is: the finalizer sits on a copy that is garbage at once, every armed value returns.
     \/ /\ Has("gc") /\ held' = held /\ ob' = ob
        /\ LET back == IF "make-value" \in AsIs THEN fin ELSE fin \cap drp IN
-          /\ pl' = IF vk = "bytesbuf" THEN [pl EXCEPT !.inner = @ \cup back] ELSE [pl EXCEPT !.may = @ \cup back]
+          /\ pl' = IF vk = "bytesbuf" THEN [pl EXCEPT !.inner = @ \cup back, !.sure = back]
+                                       ELSE [pl EXCEPT !.may = @ \cup back, !.sure = back]
           /\ fin' = fin \ back /\ drp' = {}
        /\ RecP([op |-> "gc", kind |-> vk], "-")
 
@@ -401,7 +439,8 @@ CleanMonotone == [][\A i \in Idx : ob'[i].cl >= ob[i].cl]_vars
 \* after FinalizeSetup the configuration is frozen
 Frozen == [][pl.locked => (pl'.locked /\ pl'.ctor = pl.ctor /\ pl'.hook = pl.hook)]_vars
 
-Inv == TypeOK /\ OnceAtMostOnce /\ NoLiveInPool
+\* (the behaviour-generating configs check NoLiveInPool only when no divergence that breaks it is switched on)
+Inv == TypeOK /\ OnceAtMostOnce /\ (AsIs \cap {"mapget-put", "make-value"} = {} => NoLiveInPool)
 ActionProps == OnceStable /\ CleanMonotone /\ Frozen
 
 \* state constraint of the edge-cover configs: the clean counters are the only unbounded part of the abstract state
